@@ -28,6 +28,9 @@ TEXT = {
     "C02.resumable-memory": "on every path on which compoActive changes from a valid value (leave or switch) compoResumable := old active is written before the "
                             "overwrite; deepEnter clears compoResumable only when it equals the entered prong",
     "C02.reset": "R_::reset: _apex.deepExit < history cleared < registry.clear() < _apex.deepRequestChange(RESTART request) < _apex.deepEnter; no guard call",
+    "C02.override": "RegistryT::requestImmediate (both registries): every loop that climbs the composite ancestors of the destination and marks them "
+                    "(compoRemains.set) can also write that ancestor's compoRequested - otherwise a region re-targeted by an earlier request of the batch "
+                    "keeps the earlier target although the later destination lies in its active branch (later requests override earlier conflicting ones)",
     "C02.idle": "processTransitions is called only under requests.count() != 0; deepChangeToRequested only under currentTransitions.count() != 0",
     "C02.registry-siblings": "the general and the no-orthogonal RegistryT agree on requestImmediate / requestScheduled / clearRequests / clear / backup / restore / "
                              "operator!= after erasing the orthogonal arms (same writes to the same fields under the same conditions)",
@@ -35,7 +38,7 @@ TEXT = {
                      "constructs the TransitionType its name denotes; immediateX = X followed by processRequest()",
 }
 MIN_INSTANCES = {"C02.dispatch": 4, "C02.kind-table": 10, "C02.descend": 10, "C02.cs-dispatch": 44, "C02.leftmost": 2, "C02.resumable-memory": 3,
-                 "C02.reset": 1, "C02.idle": 2, "C02.registry-siblings": 5, "C02.name-kind": 30}
+                 "C02.reset": 1, "C02.override": 2, "C02.idle": 2, "C02.registry-siblings": 5, "C02.name-kind": 30}
 
 KIND_HANDLER = {"CHANGE": "deepRequestChange", "RESTART": "deepRequestRestart", "RESUME": "deepRequestResume", "SELECT": "deepRequestSelect",
                 "UTILIZE": "deepRequestUtilize", "RANDOMIZE": "deepRequestRandomize"}
@@ -69,8 +72,44 @@ def check(ctx, F):
     check_resumable_memory(ctx, F)
     check_reset(ctx, F)
     check_idle(ctx, F)
+    check_override(ctx, F)
     check_registry_siblings(ctx, F)
     check_name_kind(ctx, F)
+
+
+def check_override(ctx, F):
+    for fid, b in insts(F, "RegistryT", {"requestImmediate"}):
+        spec = F.spec(b["tid"])
+        site = "RegistryT<%s>::requestImmediate" % spec
+        loops = [x for x in walk(b["body"]) if x.get("k") in ("for", "while")]
+        marking = []
+        for l in loops:
+            body = l.get("b") or {}
+            marks = [x for x in walk(body) if x.get("k") == "call" and "f" in x and F.fn(x["f"])["name"] == "set" and
+                     any(m.get("k") == "mem" and m.get("n") == "compoRemains" for m in walk(x.get("obj") or {}))]
+            if not marks:
+                continue
+            # references into compoRequested declared in the loop
+            refs = set()
+            for x in walk(body):
+                if x.get("k") == "decl":
+                    for v in x["vars"]:
+                        if v.get("ref") and not v.get("const") and any(m.get("k") == "mem" and m.get("n") == "compoRequested" for m in walk(v.get("init") or {})):
+                            refs.add(v["n"])
+            writes = False
+            for x in walk(body):
+                if x.get("k") == "asg":
+                    lhs = strip(x["lhs"])
+                    if (lhs.get("k") == "var" and lhs.get("n") in refs) or any(m.get("k") == "mem" and m.get("n") == "compoRequested" for m in walk(lhs)):
+                        writes = True
+            marking.append(writes)
+        ctx.instance("C02.override", site, {"function": site, "loc": F.floc(fid), "ancestor_loops_that_mark": len(marking), "of_which_can_retarget": sum(marking)})
+        if not marking:
+            raise AnalysisBroken("%s: no loop marks compoRemains - the rule does not know this shape" % site)
+        if not all(marking):
+            ctx.violation("C02.override", site, "%s (%s)" % (site, F.floc(fid)),
+                          "a loop over the composite ancestors marks them (compoRemains.set) but never writes their compoRequested: a region that an earlier "
+                          "request of the batch re-targeted keeps that target even if the later destination lies in its active branch - the earlier request wins", {})
 
 
 def enum_names(F, enum):
